@@ -35,6 +35,7 @@ class WebhookTriggerDecorator(TriggerDecorator, ExpressionDecorator, AutoKwargsD
     webhook_id: str
     local_only: bool
     methods: set[str]
+    _registered: bool = False
 
     async def validate(self):
         """Validate the webhook trigger configuration."""
@@ -75,10 +76,14 @@ class WebhookTriggerDecorator(TriggerDecorator, ExpressionDecorator, AutoKwargsD
             local_only=self.local_only,
             allowed_methods=self.methods,
         )
+        self._registered = True
 
         _LOGGER.debug("webhook trigger %s listening on id %s", self.dm.name, self.webhook_id)
 
     async def stop(self):
         """Stop the webhook trigger."""
         await super().stop()
-        webhook.async_unregister(self.dm.hass, self.webhook_id)
+        # a trigger that never registered must not remove the handler another function registered for this id
+        if self._registered:
+            self._registered = False
+            webhook.async_unregister(self.dm.hass, self.webhook_id)
